@@ -90,7 +90,6 @@ def whyN (c ap : Bool) : Nat → Node → List String
       (blocksOf n).flatMap (fun b => b.flatMap fun k => match k with | some k => whyN c ap fuel k | none => ["nil"])
     if sub.isEmpty then [kindName n ++ (match n with
       | .infix t _ (some r) => if sameAssociativeOperator t r then ":repeated-associative-operator" else ""
-      | .index t _ i => if t.type == .DOT && isDotDot i then ":dotdot-after-dot" else ""
       | _ => "")] else sub
 
 def whyProg (c ap : Bool) (prog : NList) : List String :=
